@@ -33,13 +33,13 @@ class CacheEngine(Engine):
     model_file = "Cache/CacheOps.v"
     exe = "cache"
 
-    def __init__(self, pol, prop=None):
-        self.pol = pol
+    def __init__(self, prop=None, pols=POLICIES):
         self.prop = prop
-        self.name = "cache." + pol
+        self.pols = tuple(pols)
+        self.name = "cache"
 
     def n_cases(self, tier):
-        return 500 if tier == "quick" else 8000
+        return 2000 if tier == "quick" else 40000
 
     # ------------------------------------------------------------------ format
     def split(self, line):
@@ -127,7 +127,9 @@ class CacheEngine(Engine):
 
     # --------------------------------------------------------------- generator
     def corpus(self):
-        p = self.pol
+        return [x for p in self.pols for x in self.corpus_of(p)]
+
+    def corpus_of(self, p):
         base = str(1000 * S)
         T5 = str(5 * S)
         c = [
@@ -146,7 +148,8 @@ class CacheEngine(Engine):
         if p != "null":
             c += [
                 # F-28: insert, remove, maintenance applies the stale Write event
-                "%s 1 3 0 0 60 1 0 0 %s s i 1 100 5 r 1 m i 2 101 4 m $ g 2 m $ p 2 y 901" % (p, base),
+                "%s 1 3 0 0 60 1 0 0 %s s i 1 100 5 r 1 m i 2 101 4 m $ p 1 p 2 g 2 m $ p 1 p 2 y 901" % (p, base),
+                "%s 2 3 0 0 60 1 0 0 %s s i 2 102 2 x 2 i 0 104 4 m $ p 0 p 2 y 904" % (p, base),
                 # F-29 shape: overwrite with a different cost
                 "%s 1 10 0 0 60 1 0 0 %s s i 1 100 1 m i 1 101 8 i 2 102 8 m $ p 1 p 2 m $ y 902" % (p, base),
                 # capacity eviction, item larger than capacity
@@ -155,7 +158,7 @@ class CacheEngine(Engine):
         return [self.join(*self.split(x)) for x in c]
 
     def gen(self, rng, tier):
-        pol = self.pol
+        pol = rng.pick(self.pols)
         shards = rng.pick([1, 2, 8])
         cap = 0 if pol == "null" else rng.pick([0, 3, 3, 10, 10])
         ttl = rng.pick([0, 0, 5 * S, 10 * S])
